@@ -1,0 +1,299 @@
+//! Verification-only facades. Compiled only with `--cfg libp2p_verif`; never part of a normal
+//! build. Everything in here *forwards* to the crate-private items it names; nothing is
+//! re-implemented.
+//!
+//! * [`Instant`] / [`clock`]: drop-in for `web_time::Instant` (= real clock + thread-local virtual
+//!   offset, optionally frozen) used by `backoff.rs`, `time_cache.rs`, `behaviour.rs`, `types.rs`
+//!   and `gossip_promises.rs` when the guard is on.
+//! * [`Backoffs`], [`DupCache`], [`MCache`]: forwarding wrappers around `BackoffStorage`,
+//!   `DuplicateCache<MessageId>` and `MessageCache`.
+//! * [`decode_rpcs`]: feeds byte chunks into the real `GossipsubCodec` inside a `FramedRead`.
+//! * `Behaviour::verif_heartbeat` / `Behaviour::verif_fanout` live next to the private items in
+//!   `behaviour.rs`.
+
+#![allow(unreachable_pub, missing_docs, clippy::new_without_default)]
+
+use std::{
+    cell::Cell,
+    collections::{HashMap, HashSet},
+    io,
+    ops::{Add, Sub},
+    pin::Pin,
+    task::{Context, Poll},
+    time::Duration,
+};
+
+use asynchronous_codec::FramedRead;
+use futures::{AsyncRead, StreamExt};
+use libp2p_identity::PeerId;
+
+pub use crate::{
+    handler::{HandlerEvent, HandlerIn},
+    protocol::GossipsubCodec,
+    types::{ControlAction, PeerKind, RpcIn, Subscription, SubscriptionAction},
+};
+use crate::{
+    MessageId, RawMessage, TopicHash, ValidationMode, backoff::BackoffStorage,
+    mcache::MessageCache, time_cache::DuplicateCache,
+};
+
+// ------------------------------------------------------------------------------------------------
+// (a) clock shim
+// ------------------------------------------------------------------------------------------------
+
+thread_local! {
+    static OFFSET: Cell<Duration> = const { Cell::new(Duration::ZERO) };
+    static FROZEN: Cell<Option<web_time::Instant>> = const { Cell::new(None) };
+}
+
+/// Same API subset as `web_time::Instant`; `now()` = (frozen base or real clock) + thread-local
+/// virtual offset.
+#[derive(Clone, Copy, Debug, PartialEq, Eq, PartialOrd, Ord, Hash)]
+pub struct Instant(web_time::Instant);
+
+impl Instant {
+    pub fn now() -> Instant {
+        let base = FROZEN.with(|f| f.get()).unwrap_or_else(web_time::Instant::now);
+        Instant(base + OFFSET.with(|o| o.get()))
+    }
+    pub fn checked_add(&self, d: Duration) -> Option<Instant> {
+        self.0.checked_add(d).map(Instant)
+    }
+    pub fn checked_sub(&self, d: Duration) -> Option<Instant> {
+        self.0.checked_sub(d).map(Instant)
+    }
+    pub fn duration_since(&self, earlier: Instant) -> Duration {
+        self.0.duration_since(earlier.0)
+    }
+    pub fn checked_duration_since(&self, earlier: Instant) -> Option<Duration> {
+        self.0.checked_duration_since(earlier.0)
+    }
+    pub fn saturating_duration_since(&self, earlier: Instant) -> Duration {
+        self.0.saturating_duration_since(earlier.0)
+    }
+    pub fn elapsed(&self) -> Duration {
+        Instant::now().saturating_duration_since(*self)
+    }
+}
+
+impl Add<Duration> for Instant {
+    type Output = Instant;
+    fn add(self, d: Duration) -> Instant {
+        Instant(self.0 + d)
+    }
+}
+impl Sub<Duration> for Instant {
+    type Output = Instant;
+    fn sub(self, d: Duration) -> Instant {
+        Instant(self.0 - d)
+    }
+}
+impl Sub<Instant> for Instant {
+    type Output = Duration;
+    fn sub(self, other: Instant) -> Duration {
+        self.0 - other.0
+    }
+}
+
+/// Control of the calling thread's virtual clock.
+pub mod clock {
+    use super::{Duration, FROZEN, OFFSET};
+
+    /// Move this thread's clock forward by `d`.
+    pub fn advance(d: Duration) {
+        OFFSET.with(|o| o.set(o.get() + d));
+    }
+    /// Stop the real clock for this thread: from now on time only moves through [`advance`].
+    pub fn freeze() {
+        FROZEN.with(|f| {
+            if f.get().is_none() {
+                f.set(Some(web_time::Instant::now()))
+            }
+        });
+    }
+    pub fn unfreeze() {
+        FROZEN.with(|f| f.set(None));
+    }
+    /// Total virtual offset of this thread.
+    pub fn offset() -> Duration {
+        OFFSET.with(|o| o.get())
+    }
+    /// Back to the plain real clock.
+    pub fn reset() {
+        OFFSET.with(|o| o.set(Duration::ZERO));
+        unfreeze();
+    }
+}
+
+// ------------------------------------------------------------------------------------------------
+// (b) facades
+// ------------------------------------------------------------------------------------------------
+
+pub struct Backoffs(BackoffStorage);
+
+impl Backoffs {
+    pub fn new(prune_backoff: Duration, heartbeat_interval: Duration, backoff_slack: u32) -> Self {
+        Backoffs(BackoffStorage::new(
+            &prune_backoff,
+            heartbeat_interval,
+            backoff_slack,
+        ))
+    }
+    pub fn update_backoff(&mut self, topic: &TopicHash, peer: &PeerId, time: Duration) {
+        self.0.update_backoff(topic, peer, time)
+    }
+    pub fn is_backoff_with_slack(&self, topic: &TopicHash, peer: &PeerId) -> bool {
+        self.0.is_backoff_with_slack(topic, peer)
+    }
+    pub fn get_backoff_time(&self, topic: &TopicHash, peer: &PeerId) -> Option<Instant> {
+        self.0.get_backoff_time(topic, peer)
+    }
+    pub fn heartbeat(&mut self) {
+        self.0.heartbeat()
+    }
+}
+
+pub struct DupCache(DuplicateCache<MessageId>);
+
+impl DupCache {
+    pub fn new(ttl: Duration) -> Self {
+        DupCache(DuplicateCache::new(ttl))
+    }
+    pub fn insert(&mut self, id: MessageId) -> bool {
+        self.0.insert(id)
+    }
+    pub fn contains(&self, id: &MessageId) -> bool {
+        self.0.contains(id)
+    }
+}
+
+pub struct MCache(MessageCache);
+
+impl MCache {
+    pub fn new(gossip: usize, history_capacity: usize) -> Self {
+        MCache(MessageCache::new(gossip, history_capacity))
+    }
+    pub fn put(&mut self, id: &MessageId, msg: RawMessage) -> bool {
+        self.0.put(id, msg)
+    }
+    pub fn observe_duplicate(&mut self, id: &MessageId, source: &PeerId) {
+        self.0.observe_duplicate(id, source)
+    }
+    pub fn get_with_iwant_counts(
+        &mut self,
+        id: &MessageId,
+        peer: &PeerId,
+    ) -> Option<(RawMessage, u32)> {
+        self.0
+            .get_with_iwant_counts(id, peer)
+            .map(|(m, c)| (m.clone(), c))
+    }
+    pub fn validate(&mut self, id: &MessageId) -> Option<(RawMessage, HashSet<PeerId>)> {
+        self.0.validate(id).map(|(m, p)| (m.clone(), p))
+    }
+    pub fn get_gossip_message_ids(&self, topic: &TopicHash) -> Vec<MessageId> {
+        self.0.get_gossip_message_ids(topic)
+    }
+    pub fn shift(&mut self) {
+        self.0.shift()
+    }
+    pub fn remove(&mut self, id: &MessageId) -> Option<(RawMessage, HashSet<PeerId>)> {
+        self.0.remove(id)
+    }
+}
+
+// ------------------------------------------------------------------------------------------------
+// (c) codec
+// ------------------------------------------------------------------------------------------------
+
+/// Constructor arguments of the real [`GossipsubCodec`].
+#[derive(Clone, Debug)]
+pub struct CodecParams {
+    pub max_transmit_size: usize,
+    pub validation_mode: ValidationMode,
+    pub max_transmit_sizes: HashMap<TopicHash, usize>,
+    pub max_publish_messages: usize,
+    pub max_control_message_size: usize,
+}
+
+impl CodecParams {
+    pub fn codec(&self) -> GossipsubCodec {
+        GossipsubCodec::new(
+            self.max_transmit_size,
+            self.validation_mode.clone(),
+            self.max_transmit_sizes.clone(),
+            self.max_publish_messages,
+            self.max_control_message_size,
+        )
+    }
+}
+
+/// Yields each chunk with its own `poll_read` (split further only when the caller's buffer is
+/// smaller than the chunk), then EOF.
+struct Chunks<'a> {
+    chunks: &'a [Vec<u8>],
+    idx: usize,
+    off: usize,
+}
+
+impl AsyncRead for Chunks<'_> {
+    fn poll_read(
+        mut self: Pin<&mut Self>,
+        _: &mut Context<'_>,
+        out: &mut [u8],
+    ) -> Poll<io::Result<usize>> {
+        while self.idx < self.chunks.len() && self.off >= self.chunks[self.idx].len() {
+            self.idx += 1;
+            self.off = 0;
+        }
+        if self.idx >= self.chunks.len() || out.is_empty() {
+            return Poll::Ready(Ok(0));
+        }
+        let chunk = &self.chunks[self.idx][self.off..];
+        let n = chunk.len().min(out.len());
+        out[..n].copy_from_slice(&chunk[..n]);
+        self.off += n;
+        Poll::Ready(Ok(n))
+    }
+}
+
+/// What the real codec yielded for a chunked byte stream: every decoded item in order, and the
+/// error (rendered with its source chain) that ended the stream, if any.
+pub struct Decoded {
+    pub events: Vec<HandlerEvent>,
+    pub error: Option<String>,
+}
+
+pub fn decode_rpcs(params: &CodecParams, chunks: &[Vec<u8>]) -> Decoded {
+    let mut framed = FramedRead::new(
+        Chunks {
+            chunks,
+            idx: 0,
+            off: 0,
+        },
+        params.codec(),
+    );
+    let mut out = Decoded {
+        events: Vec::new(),
+        error: None,
+    };
+    futures::executor::block_on(async {
+        while let Some(item) = framed.next().await {
+            match item {
+                Ok(ev) => out.events.push(ev),
+                Err(e) => {
+                    let mut s = e.to_string();
+                    let mut src = std::error::Error::source(&e);
+                    while let Some(inner) = src {
+                        s.push_str(": ");
+                        s.push_str(&inner.to_string());
+                        src = inner.source();
+                    }
+                    out.error = Some(s);
+                    break;
+                }
+            }
+        }
+    });
+    out
+}
